@@ -10,8 +10,9 @@ import (
 
 // Doc is one document of the simulated bucket.
 type Doc struct {
-	Body []byte
-	Cas  uint64
+	Body   []byte
+	Xattrs map[string][]byte
+	Cas    uint64
 }
 
 // Store is a bucket shared by several Node front-ends (one front-end per library instance, so that every
@@ -67,7 +68,7 @@ func (s *Store) Handler(member int) func(n *Node, c *memd.Conn, p *memd.Packet, 
 			send(&memd.Packet{Magic: memd.CmdMagicRes, Command: p.Command, Opaque: p.Opaque, Status: memd.StatusSuccess,
 				Extras: append(be64(0), 0, 0, 0, 0)})
 			return true
-		case memd.CmdGet, memd.CmdSet, memd.CmdAdd, memd.CmdSubDocMultiMutation:
+		case memd.CmdGet, memd.CmdSet, memd.CmdAdd, memd.CmdDelete, memd.CmdSubDocMultiMutation, memd.CmdSubDocMultiLookup:
 			q := *p
 			go s.serve(member, &q, send)
 			return true
@@ -80,7 +81,8 @@ func be64(v uint64) []byte { b := make([]byte, 8); binary.BigEndian.PutUint64(b,
 
 func (s *Store) serve(member int, p *memd.Packet, send func(*memd.Packet)) {
 	key := string(p.Key) // (memd.Conn has already split off the collection id)
-	op := map[memd.CmdCode]string{memd.CmdGet: "get", memd.CmdSet: "set", memd.CmdAdd: "set", memd.CmdSubDocMultiMutation: "mutate"}[p.Command]
+	op := map[memd.CmdCode]string{memd.CmdGet: "get", memd.CmdSet: "set", memd.CmdAdd: "set", memd.CmdDelete: "set",
+		memd.CmdSubDocMultiMutation: "mutate", memd.CmdSubDocMultiLookup: "get"}[p.Command]
 	if s.Gate != nil {
 		s.Gate(member, op, key)
 	}
@@ -97,6 +99,33 @@ func (s *Store) serve(member int, p *memd.Packet, send func(*memd.Packet)) {
 			return
 		}
 		res(memd.StatusSuccess, []byte{0, 0, 0, 0}, d.Body, d.Cas)
+	case memd.CmdDelete:
+		if d == nil {
+			res(memd.StatusKeyNotFound, nil, nil, 0)
+			return
+		}
+		delete(s.Docs, key)
+		res(memd.StatusSuccess, nil, nil, s.nextCas())
+	case memd.CmdSubDocMultiLookup:
+		// one spec: op(1) flags(1) pathlen(2) path ; an xattr path is looked up in the document's extended attributes
+		if d == nil {
+			res(memd.StatusKeyNotFound, nil, nil, 0)
+			return
+		}
+		v := p.Value
+		if len(v) < 4 {
+			res(memd.StatusInvalidArgs, nil, nil, 0)
+			return
+		}
+		pl := int(binary.BigEndian.Uint16(v[2:]))
+		path := string(v[4 : 4+pl])
+		x, ok := d.Xattrs[path]
+		if !ok {
+			res(memd.StatusSubDocBadMulti, nil, []byte{0, byte(memd.StatusSubDocPathNotFound), 0, 0, 0, 0}, d.Cas)
+			return
+		}
+		out := []byte{0, 0, byte(len(x) >> 24), byte(len(x) >> 16), byte(len(x) >> 8), byte(len(x))}
+		res(memd.StatusSuccess, nil, append(out, x...), d.Cas)
 	case memd.CmdSet, memd.CmdAdd:
 		if p.Command == memd.CmdAdd && d != nil {
 			res(memd.StatusKeyExists, nil, nil, 0)
@@ -131,6 +160,19 @@ func (s *Store) serve(member int, p *memd.Packet, send func(*memd.Packet)) {
 		}
 		if p.Cas != 0 && (d == nil || d.Cas != p.Cas) {
 			res(memd.StatusKeyExists, nil, nil, 0)
+			return
+		}
+		if v[1]&0x04 != 0 { // extended attribute
+			nd := &Doc{Xattrs: map[string][]byte{}, Cas: s.nextCas()}
+			if d != nil {
+				nd.Body = d.Body
+				for k, x := range d.Xattrs {
+					nd.Xattrs[k] = x
+				}
+			}
+			nd.Xattrs[path] = val
+			s.Docs[key] = nd
+			res(memd.StatusSuccess, nil, nil, nd.Cas)
 			return
 		}
 		switch opc {
